@@ -710,6 +710,7 @@ let hist_call (kind : string) (body : string) : string =
     | [a; b] -> (a, Stdlib.String.trim b) | [a] -> (a, "") | _ -> failwith "hist case" in
   if orc = "ORACLE-PANIC" then "oracle-panic" else
   if kind = "X" then "xfail" else
+  if kind = "Z" then "poison" else
   match split_on ' ' main with
   | [cfg; rate; ch; bps; bs; samples] ->
     let cfg = parse_cfg cfg in
